@@ -7,7 +7,12 @@ import os
 import tempfile
 
 READ_KINDS = ('bytesio', 'file', 'pipe', 'minimal')
-WRITE_KINDS = ('bytesio', 'file', 'pipe', 'minimal')
+# further reader kinds, used where a check rotates through kinds: a buffered handle with a small buffer (peek() and
+# read1() give at most the buffer), a member of a zip archive (a binary stream whose mode is 'r'), a memory map
+MORE_READ_KINDS = ('smallbuf', 'zip', 'mmap')
+ALL_READ_KINDS = READ_KINDS + MORE_READ_KINDS
+# writers: the library's writers rewind their sink (seek(0)), so only seekable sinks are in their contract
+WRITE_KINDS = ('bytesio', 'file', 'legacy')
 
 
 class _RawIn(io.RawIOBase):
@@ -43,6 +48,43 @@ class _RawOut(io.RawIOBase):
         return len(b)
 
 
+class _RawSeekIn(_RawIn):
+    def seekable(self):
+        return True
+
+    def seek(self, pos, whence=0):
+        self._p = {0: pos, 1: self._p + pos, 2: len(self._d) + pos}[whence]
+        return self._p
+
+    def tell(self):
+        return self._p
+
+
+class LegacyWriter(object):
+    """a seekable sink in the style of older file-like classes: write() and seek() return None"""
+
+    def __init__(self):
+        self._b = io.BytesIO()
+
+    def write(self, b):
+        self._b.write(b)
+
+    def seek(self, pos, whence=0):
+        self._b.seek(pos, whence)
+
+    def tell(self):
+        return self._b.tell()
+
+    def flush(self):
+        pass
+
+    def close(self):
+        pass
+
+    def getvalue(self):
+        return self._b.getvalue()
+
+
 class MinimalReader(object):
     """only read(n)"""
 
@@ -71,6 +113,28 @@ def reader(kind, data):
         return io.BufferedReader(_RawIn(data)), lambda: None
     if kind == 'minimal':
         return MinimalReader(data), lambda: None
+    if kind == 'smallbuf':
+        return io.BufferedReader(_RawSeekIn(data), buffer_size=512), lambda: None
+    if kind == 'zip':
+        import zipfile
+        z = io.BytesIO()
+        with zipfile.ZipFile(z, 'w', zipfile.ZIP_STORED) as zf:
+            zf.writestr('member.bin', bytes(data))
+        zf = zipfile.ZipFile(io.BytesIO(z.getvalue()))
+        fo = zf.open('member.bin')
+
+        def done_zip():
+            fo.close()
+            zf.close()
+        return fo, done_zip
+    if kind == 'mmap' and len(data) > 0:
+        import mmap
+        m = mmap.mmap(-1, len(data))
+        m.write(bytes(data))
+        m.seek(0)
+        return m, m.close
+    if kind == 'mmap':
+        return io.BytesIO(b''), lambda: None
     if kind == 'file':
         fd, path = tempfile.mkstemp(prefix='vf-in-')
         with os.fdopen(fd, 'wb') as f:
@@ -117,6 +181,9 @@ def writer(kind):
     if kind == 'minimal':
         m = MinimalWriter()
         return m, (lambda: b''.join(m.chunks)), lambda: None
+    if kind == 'legacy':
+        lw = LegacyWriter()
+        return lw, lw.getvalue, lambda: None
     if kind == 'file':
         fd, path = tempfile.mkstemp(prefix='vf-out-')
         os.close(fd)
